@@ -223,6 +223,20 @@ func cmdCheck(args []string) int {
 		if tier == "quick" && l.Tier != "quick" {
 			continue
 		}
+		// harness/<pkg>/DEPS lists further package dirs whose harness files (shims) must be overlaid
+		if b, err := os.ReadFile(filepath.Join(verifDir, "harness", l.Pkg, "DEPS")); err == nil {
+			for _, d := range strings.Fields(string(b)) {
+				found := false
+				for _, s := range l.Shims {
+					if s == d {
+						found = true
+					}
+				}
+				if !found {
+					l.Shims = append(l.Shims, d)
+				}
+			}
+		}
 		sel = append(sel, l)
 		dirSet[l.Pkg] = true
 		for _, s := range l.Shims {
